@@ -44,6 +44,7 @@ class MultiCVRPH(Harness):
     THOROUGH = [f"MultiCVRP@N6V2~{k}" for k in range(4, 8)]
     BMC = True
     BMC_DEPTH = {"quick": 2, "thorough": 3}
+    C11_HORIZON_EXTRA = ["MultiCVRP@N6V3~0"]     # three vehicles: the documented horizon is 2*num_customers whatever the fleet size
     INVALID = "ignore"            # an illegal selection does not end the episode: the vehicle is sent to the depot
     REWARD_VARIANTS = [{"steps": "start"}, {"reward": "sparse", "steps": "start"}]
     DIFF_ULPS = 16
